@@ -69,7 +69,7 @@ def evaluate(e):
 
 # ---------------------------------------------------------------- repository programs rewritten
 
-REWRITES = ['strip-comments', 'tabs', 'wide-blanks', 'trailing-blanks', 'blank-and-comment-lines', 'upper-mnemonics', 'all']
+REWRITES = ['strip-comments', 'tabs', 'wide-blanks', 'trailing-blanks', 'blank-and-comment-lines', 'upper-mnemonics', 'all', 'labels-own-line', 'labels-in-front']
 
 
 def _mnemonics(cfg_path):
@@ -83,6 +83,32 @@ def _mnemonics(cfg_path):
 def rewrite_text(text, how, mnems):
     """A meaning-preserving rewrite of one source file; lines containing a quote character are left as they are."""
     import re
+    if how in ('labels-own-line', 'labels-in-front'):
+        lines = text.split('\n')
+        out = []
+        k = 0
+        while k < len(lines):
+            line = lines[k]
+            if '"' in line or "'" in line:
+                out.append(line)
+            elif how == 'labels-own-line':
+                m = re.match(r'^(\s*[.\w]+:)[ \t]+([^;\s].*)$', line)
+                if m and not re.match(r'^\s*\w+\s*(=|EQU\b)', line):
+                    out.append(m.group(1))
+                    out.append('\t' + m.group(2))
+                else:
+                    out.append(line)
+            else:
+                m = re.match(r'^(\s*[.\w]+:)\s*$', line)
+                nxt = lines[k + 1] if k + 1 < len(lines) else ''
+                m2 = re.match(r'^\s*([A-Za-z_][\w.]*)\b', nxt)
+                if m and m2 and m2.group(1).lower() in mnems and '"' not in nxt and "'" not in nxt and ':' not in nxt.split(';')[0]:
+                    out.append(m.group(1) + ' ' + nxt.strip())
+                    k += 1
+                else:
+                    out.append(line)
+            k += 1
+        return '\n'.join(out)
     out = []
     for n, line in enumerate(text.split('\n')):
         if '"' in line or "'" in line:
@@ -148,7 +174,7 @@ def run_corpus(chk):
     import os
     from harness import corpus
     progs = [p for p in corpus.corpus_programs() if chk.tier != 'quick' or os.path.getsize(p[1]) < 12000]
-    jobs = [(c, s_, i, h) for (c, s_, i) in progs for h in (REWRITES if chk.tier != 'quick' else ['all', 'upper-mnemonics', 'wide-blanks'])]
+    jobs = [(c, s_, i, h) for (c, s_, i) in progs for h in (REWRITES if chk.tier != 'quick' else ['all', 'upper-mnemonics', 'wide-blanks', 'labels-own-line', 'labels-in-front'])]
     outs = runner.pmap(eval_corpus_rewrite, jobs)
     for (c, s_, i, h), r in zip(jobs, outs):
         chk.traces += 1
@@ -168,7 +194,7 @@ def run(chk):
                 'blank line before) and checks RoundTrip: Tokenize(Render(P, c)) = P. The harness spells each rendering and the real '
                 'assembler must produce Bytes(P), the same for every rendering of P. Instances: all 108 styles for single '
                 'statements and pairs (sampled in the quick tier), a 10-style covering subset for three statements. '
-                'Non-trivial = distinct rendered text. The repository programs are also rewritten (comments stripped, blanks changed to tabs / widened / appended, blank and comment lines added, mnemonics upper-cased; lines with quote characters untouched) and must assemble to the same image under their own ISAs.')
+                'Non-trivial = distinct rendered text. The repository programs are also rewritten (comments stripped, blanks changed to tabs / widened / appended, blank and comment lines added, mnemonics upper-cased, labels moved onto their own line / in front of the following instruction; lines with quote characters untouched) and must assemble to the same image under their own ISAs.')
     chk.assumptions = ['only the rewrites the statement lists are applied: case of mnemonics and registers (not labels, not directives), blanks between tokens, blank lines, comments, label placement, joining of instructions (not directives)']
     plan = ([('pre-sep-2', 'StmtsP', 'StylesSep', 2), ('all-styles-1', 'StmtsA', 'StylesAll', 1), ('half-styles-2', 'StmtsA', 'StylesHalf', 2), ('core-styles-3', 'StmtsB', 'StylesCore', 3)] if quick
             else [('pre-sep-3', 'StmtsP', 'StylesSep', 3), ('all-styles-2', 'StmtsA', 'StylesAll', 2), ('core-styles-3', 'StmtsA', 'StylesCore', 3), ('core-styles-4', 'StmtsB', 'StylesCore', 4)])
